@@ -554,6 +554,14 @@ class Lib:
                 return r
             if full(i1) and not isinstance(i0, (slice, Arr, list)):
                 return self.arr_getitem(a, i0)
+            nc = simp(a.shape[1])
+            if full(i0) and isinstance(i1, slice) and isinstance(nc, int) and i1.step in (None, 1) \
+                    and all(x is None or isinstance(simp(x), int) for x in (i1.start, i1.stop)):
+                # a[:, lo:hi] with concrete column bounds: a view of those columns
+                lo, hi, _ = slice(None if i1.start is None else simp(i1.start), None if i1.stop is None else simp(i1.stop)).indices(nc)
+                base = a
+                r = Arr((a.shape[0], max(0, hi - lo)), lambda ix, lo=lo: base.f((ix[0], simp(ix[1] + lo))), a.dtype)
+                return r
             if isinstance(i0, Arr) and isinstance(i1, Arr) and i0.dtype == 'int64' and i1.dtype == 'int64':
                 shape = self._bshape(i0, i1)
                 f0, f1, fa = i0.f, i1.f, a.f
@@ -1505,10 +1513,20 @@ def _ceil(L, x):
     return float(math.ceil(x))
 
 
+ROUND_DEC = z3.Function('round_decimals', z3.RealSort(), z3.IntSort(), z3.RealSort())
+
+
 @model('numpy.round', 'numpy.around', 'numpy.rint')
 def _np_round(L, x, decimals=0):
     if decimals != 0:
-        raise Unsupported('numpy.round with decimals')
+        # rounding to a number of decimals: an uninterpreted function of the value (float layer, not modelled)
+        if isinstance(x, Arr) and x.ndim == 0:
+            x = x.f(())
+        if isinstance(x, Arr) or is_sym(decimals):
+            raise Unsupported('numpy.round with decimals of an array')
+        if is_sym(x):
+            return ROUND_DEC(to_real(x), z3.IntVal(int(decimals)))
+        return float(round(x, decimals))
     if isinstance(x, Arr):
         return L.lift1(lambda e: _np_round(L, e), x, x.dtype)
     if is_sym(x):
@@ -1718,6 +1736,10 @@ def _arange(L, *a, **kw):
 def _sort(L, a, **kw):
     """assumed: result is a sorted permutation (multiset preserved: all threshold counts equal)"""
     a = L.as_arr(a)
+    if a.ghost.get('first_occ') is not None:
+        # the index array of numpy.unique(.., return_index=True): sorted, it enumerates the first-occurrence positions in
+        # increasing order (see models_io.unique_first_occurrence)
+        return a.ghost['first_occ']
     if a.ndim != 1:
         raise Unsupported('sort of nd array')
     if a.dtype not in FLOAT_DT + ('int64',):
@@ -1918,6 +1940,12 @@ def _reshape(L, a, *shape):
         n0, n1 = shape
         if simp(n0) == -1:
             raise Unsupported('reshape -1')
+        if simp(n1) == -1:
+            raise Unsupported('reshape -1')
+        size = to_z3(flat.shape[0])
+        bad = simp(to_z3(n0) * to_z3(n1) != size)
+        if bad is True or (bad is not False and L.ctx.branch(bad)):
+            raise PyRaise(builtin_exc('ValueError'), 'cannot reshape array into the requested shape')
         return Arr((n0, n1), lambda ix: flat.f((simp(to_z3(ix[0]) * to_z3(n1) + to_z3(ix[1])),)), a.dtype)
     raise Unsupported('reshape rank')
 
